@@ -105,6 +105,10 @@ type TaskCtx struct {
 	yieldCount uint32
 	yieldAt    uint32
 	noYield    int // > 0: inside a region that must not be pre-empted (sync.Once.Do)
+	// hot points (statements performing atomic operations): pre-empted on their own, much
+	// shorter countdown
+	hotCount uint32
+	hotAt    uint32
 }
 
 type Strategy struct {
@@ -134,6 +138,7 @@ type Sched struct {
 	YieldGap    int
 	YieldBudget int
 	yieldsLeft  []int
+	hotLeft     []int
 	Yields      int
 
 	Trace      hasher // hash of (task,kind) sequence: the interleaving
@@ -279,7 +284,33 @@ func (tc *TaskCtx) YieldPoint() {
 	}
 	tc.yieldCount = 0
 	rep := tc.Park(KYield, 0, 0, "")
-	tc.yieldAt = rep.A
+	tc.yieldAt, tc.hotAt = rep.A, rep.B
+}
+
+// HotPoint is called before a statement of the engine that performs an atomic operation
+// (instrumented build). Like YieldPoint, with a countdown of its own over hot points only.
+func (tc *TaskCtx) HotPoint() {
+	if tc.aborted || tc.noYield > 0 {
+		return
+	}
+	if tc.hotAt != 0 {
+		tc.hotCount++
+		if tc.hotCount >= tc.hotAt {
+			tc.hotCount = 0
+			rep := tc.Park(KYield, 1, 0, "")
+			tc.yieldAt, tc.hotAt = rep.A, rep.B
+			return
+		}
+	}
+	// a hot point is a statement like any other for the ordinary countdown
+	if tc.yieldAt != 0 {
+		tc.yieldCount++
+		if tc.yieldCount >= tc.yieldAt {
+			tc.yieldCount = 0
+			rep := tc.Park(KYield, 0, 0, "")
+			tc.yieldAt, tc.hotAt = rep.A, rep.B
+		}
+	}
 }
 
 // Note logs an event with the scheduler without yielding.
@@ -497,7 +528,8 @@ func (s *Sched) RunPhase(bodies []func(tc *TaskCtx), locals []any, nEnv int) []*
 		go func(tc *TaskCtx, body func(*TaskCtx)) {
 			defer wg.Done()
 			slotGid[tc.ID].Store(curGoid())
-			tc.yieldAt = tc.Park(KStart, 0, 0, "").A
+			rep0 := tc.Park(KStart, 0, 0, "")
+			tc.yieldAt, tc.hotAt = rep0.A, rep0.B
 			func() {
 				defer func() {
 					if r := recover(); r != nil {
@@ -524,8 +556,10 @@ func (s *Sched) RunPhase(bodies []func(tc *TaskCtx), locals []any, nEnv int) []*
 	s.envNext = 0
 	s.cur = -1
 	s.yieldsLeft = make([]int, n)
+	s.hotLeft = make([]int, n)
 	for i := range s.yieldsLeft {
 		s.yieldsLeft[i] = s.YieldBudget
+		s.hotLeft[i] = 3 * s.YieldBudget
 	}
 	s.initStrategy(n)
 	s.began = cpuTime()
@@ -725,10 +759,15 @@ func (s *Sched) loop() {
 		s.Trace.u64(uint64(c)<<8 | uint64(m.Kind))
 		rep := s.env.Resume(seq, m)
 		if m.Kind == KStart || m.Kind == KYield {
-			rep.A = 0
+			rep.A, rep.B = 0, 0
 			if s.YieldGap > 0 && s.yieldsLeft[c] > 0 {
 				s.yieldsLeft[c]--
 				rep.A = uint32(1 + s.tape.Draw(2*s.YieldGap))
+			}
+			if s.YieldGap > 0 && s.hotLeft[c] > 0 {
+				// pre-empt at the 1st..3rd hot point from here
+				s.hotLeft[c]--
+				rep.B = uint32(1 + s.tape.Draw(3))
 			}
 			if m.Kind == KYield {
 				s.Yields++
